@@ -127,6 +127,12 @@ func (w *Worker) fmtValue(st *State, t types.Type, v Value, verb byte, depth int
 			if bv, ok := b.boolVal(); ok {
 				return strLit(strconv.FormatBool(bv))
 			}
+			// decided by the path constraint?
+			if can, cannot := w.branch(st, b); !cannot {
+				return strLit("true")
+			} else if !can {
+				return strLit("false")
+			}
 			return atom(mkIte(b, strLit("true").toTxt(), strLit("false").toTxt()))
 		case u.Info()&types.IsFloat != 0:
 			f := v.(Term)
@@ -144,7 +150,17 @@ func (w *Worker) fmtValue(st *State, t types.Type, v Value, verb byte, depth int
 				uv, _ := i.bvVal()
 				return strLit(strconv.FormatUint(uv, 10))
 			}
-			return atom(app(STxt, "fmtI", bvResize(i, 64, signed)))
+			i64 := bvResize(i, 64, signed)
+			fi := app(STxt, "fmtI", i64)
+			if signed {
+				// documented fmt facts, instantiated at this term (A-fmt): integers of magnitude
+				// below 10^6 print identically as int and as float64; from 10^6 on the float64
+				// rendering carries an exponent and differs
+				small := mkAnd(bvCmp("bvslt", i64, mkBV(1000000, 64)), bvCmp("bvsgt", i64, mkBV(^uint64(999999), 64)))
+				ff := app(STxt, "fmtF", int64ToFP(i64))
+				st.assume(mkIte(small, mkEq(fi, ff), mkNot(mkEq(fi, ff))))
+			}
+			return atom(fi)
 		}
 	case *types.Slice:
 		sl := v.(SliceV)
@@ -519,7 +535,7 @@ func (w *Worker) intrinsic(st *State, f *Frame, x ssa.Value, callee *ssa.Functio
 		if c, ok := s.concrete(); ok {
 			set(strLit(norm.Form(form).String(c)))
 		} else if form == int64(norm.NFC) {
-			set(nfcStr(s))
+			set(w.nfcStr(st, s))
 		} else {
 			panic(engineErr("normal form other than NFC on symbolic text"))
 		}
@@ -557,25 +573,41 @@ func (w *Worker) intrinsic(st *State, f *Frame, x ssa.Value, callee *ssa.Functio
 	return true
 }
 
-func nfcStr(s StrV) StrV {
-	// NFC of a sequence: literal segments that are entirely ASCII are unaffected and act as
-	// boundaries; everything else is wrapped opaquely.
-	allASCII := true
+// nfcStr: NFC of a text with symbolic parts. Code points below U+0300 are unaffected by
+// normalisation and no combining mark exists below U+0300, so a text all of whose code
+// points are (provably, under the path constraint) below U+0300 and whose opaque atoms are
+// ASCII renderings (numbers, booleans) is its own NFC. Anything else is wrapped opaquely.
+func (w *Worker) nfcStr(st *State, s StrV) StrV {
+	safe := true
 	for _, g := range s.Segs {
-		if g.K != SegLit {
-			allASCII = false
-			break
-		}
-		for i := 0; i < len(g.Lit); i++ {
-			if g.Lit[i] >= 0x80 {
-				allASCII = false
+		switch g.K {
+		case SegLit:
+			for _, r := range g.Lit {
+				if r >= 0x300 {
+					safe = false
+				}
+			}
+		case SegRune:
+			if can, _ := w.branch(st, bvCmp("bvsge", g.T, mkBV(0x300, 32))); can {
+				safe = false
+			}
+		case SegAtom:
+			if !asciiAtom(g.T) {
+				safe = false
 			}
 		}
+		if !safe {
+			break
+		}
 	}
-	if allASCII {
+	if safe {
 		return s
 	}
 	return atom(app(STxt, "txtNFC", s.toTxt()))
+}
+
+func asciiAtom(t Term) bool {
+	return strings.HasPrefix(t.S, "(fmtF ") || strings.HasPrefix(t.S, "(fmtI ") || (t.ite != nil && asciiAtom(t.ite.a) && asciiAtom(t.ite.b)) || strings.HasPrefix(t.S, "(txtCat (txtRune #x000000") && !strings.Contains(t.S, "w32_")
 }
 
 func (w *Worker) unicodePred(name string, c Term) Term {
